@@ -48,7 +48,10 @@ def run(ctx):
         'int f(int n,int x,int y,int z){ int i; for (i = 0; i < n; i++) { if (x < y) { x = y; } else { z = z + y; } } x = x * z; }',
         'int f(int x,int y,int z,int w){ if (x < y) { x = y * z; } else { x = w; } while (w < z) { w = x; } }',
     ]
-    for i in range(ctx.budget(70, 2500)):
+    import props.funcs_common as FCm
+    for i in range(ctx.budget(14, 300)):
+        srcs.append(FCm.shift_loop(rng, plain=(i % 2 == 0)))
+    for i in range(ctx.budget(220, 2500)):
         g = Gen(rng, Opts(sugar=False, consts=False, max_bin=5, max_stmts=3, nvars=rng.choice([3, 4])))
         s = g.function()
         if ' - ' in s:
@@ -74,7 +77,7 @@ def run(ctx):
             bd = Bound().calculate(res.relation.apply_choice(*c))
             bounds.append({'choice': c, 'bound': implobs.bound_triples(bd, obs['variables'])})
         nd = n_decisions(src)
-        K = 2 if nd <= 4 else 1
+        K = 6 if nd <= 1 else (3 if nd == 2 else (2 if nd <= 4 else 1))
         paths = gen_paths(rng, nd, K, ctx.budget(40, 300))
         ctx.case(src, nontrivial=(('while' in src or 'for (' in src) and len(bounds) >= 2),
                  sample={'src': src, 'valid_choices': len(bounds), 'paths': len(paths)})
